@@ -114,10 +114,11 @@ def h_roundtrip(nr, nc, idk, with_md, concrete_values=False):
     if not _check_writer(lines, a, 'Consensus Lineage' if with_md else None, md_texts, sig):
         return
     # ---- read the very same text back
-    form = pick(['list-of-lines', 'handle'], 'input-form')
-    via = pick(['from_tsv', 'parse_biom_table'], 'reader')
+    form, via = pick([('list-of-lines', 'from_tsv'), ('handle', 'from_tsv'), ('list-of-lines', 'parse_biom_table'),
+                      ('handle', 'parse_biom_table'), ('path', 'load_table'), ('gzip path', 'load_table')], 'input-form/reader')
     in_lines = [l + '\n' for l in lines]
-    src = in_lines if form == 'list-of-lines' else (T.SFile(in_lines) if b.mode == 'sym' else __import__('io').StringIO(''.join(in_lines)))
+    mk_handle = (lambda: T.SFile(in_lines)) if b.mode == 'sym' else (lambda: __import__('io').StringIO(''.join(in_lines)))
+    src = in_lines if form == 'list-of-lines' else mk_handle()
     proc = (lambda x: [e_.strip() for e_ in x.split(';')])
     if via == 'from_tsv':
         t2, e = call(lambda: b.Table.from_tsv(src, None, None, proc if with_md else (lambda x: x)))
@@ -126,7 +127,20 @@ def h_roundtrip(nr, nc, idk, with_md, concrete_values=False):
         from checks.c14 import install_json_stub
         P = install_json_stub()
         proc = (lambda x: x)
-        t2, e = call(lambda: P.parse_biom_table(src))
+        if via == 'parse_biom_table':
+            t2, e = call(lambda: P.parse_biom_table(src))
+        else:
+            # a plain or gzip-compressed file on the modelled file system (checks/fsmodel.py), whatever its name
+            import sx.env as env
+            from checks import fsmodel
+            U = env.module('biom.util')
+            name = pick(['table.txt', 'table.tsv.gz', 'classic.gz.bak'], 'file-name')
+            fs = fsmodel.FS()
+            fs.put(name, 'gzip' if form == 'gzip path' else 'text', mk_handle)
+            fsmodel.install(U, fs, b.h5)
+            P.biom_open = U.biom_open
+            sig = dict(sig, file=form, name=name)
+            t2, e = call(lambda: P.load_table(name))
     if e is not None:
         all_zero = not any(is_sym(x) or x != 0 for r in a.dense for x in r)
         fail('tsv:read-raised', f"{type(e).__name__}: {e}"[:160], all_zero=int(all_zero), **sig)
